@@ -21,7 +21,7 @@ def _const_set(e: ast.expr) -> Optional[str]:
             except Exception:
                 return None
         try:
-            return repr(sorted(set(vals)))
+            return repr(sorted(set(vals), key=repr))
         except TypeError:
             return None
     return None
@@ -68,6 +68,50 @@ def canon(e: ast.expr) -> str:
         if isinstance(op, (ast.Eq, ast.NotEq)):
             eq = isinstance(op, ast.Eq) != neg
             return f"{norm(l)} {'==' if eq else '!='} {norm(r)}"
+    # x not in (a, b)  ≡  x != a and x != b  ≡  x is not a and x != b      (constants)
+    def member_form(x: ast.expr):
+        if isinstance(x, ast.Compare) and len(x.ops) == 1 and isinstance(x.ops[0], (ast.In, ast.NotIn)):
+            sset = _const_set(x.comparators[0])
+            if sset is not None:
+                return norm(x.left), set(ast.literal_eval(sset)) if False else sset, isinstance(x.ops[0], ast.NotIn)
+        return None
+    mf = member_form(e)
+    if mf is not None:
+        x, sset, notin = mf
+        return f"{'notin' if notin != neg else 'in'}({x};{sset})"
+    if isinstance(e, ast.BoolOp) and isinstance(e.op, (ast.And, ast.Or)):
+        subj = None
+        vals = []
+        ok = True
+        want_neq = isinstance(e.op, ast.And)
+        for v in e.values:
+            if isinstance(v, ast.Compare) and len(v.ops) == 1 and len(v.comparators) == 1:
+                op = v.ops[0]
+                neq = isinstance(op, (ast.NotEq, ast.IsNot))
+                eq = isinstance(op, (ast.Eq, ast.Is))
+                if (want_neq and neq) or (not want_neq and eq):
+                    try:
+                        c = ast.literal_eval(v.comparators[0])
+                    except Exception:
+                        ok = False
+                        break
+                    if subj is None:
+                        subj = norm(v.left)
+                    elif subj != norm(v.left):
+                        ok = False
+                        break
+                    vals.append(c)
+                    continue
+            ok = False
+            break
+        if ok and subj is not None and len(vals) >= 2:
+            try:
+                sset = repr(sorted(set(vals), key=repr))
+            except TypeError:
+                sset = None
+            if sset is not None:
+                kind_notin = want_neq
+                return f"{'notin' if kind_notin != neg else 'in'}({subj};{sset})"
     q = _membership_quantifier(e)
     if q is not None:
         quant, x, s, notin = q
